@@ -62,7 +62,7 @@ enum Ins {
 
 fn parse_ins(tok: &str, out: &mut Vec<Ins>) {
     let (body, rep) = match tok.split_once('*') {
-        Some((b, r)) => (b, r.parse::<usize>().unwrap_or(1).min(100_000)),
+        Some((b, r)) => (b, r.parse::<usize>().unwrap_or(1).min(1_000_000)),
         None => (tok, 1),
     };
     if body.is_empty() || !body.is_ascii() {
@@ -937,6 +937,17 @@ pub fn gen(seed: u64, count: usize, thorough: bool) -> String {
                     evs[0].push(format!("s{b}"));
                     evs[e].push(format!("w{ka}"));
                 }
+            }
+        }
+        // rare: an event whose task work takes a few hundred milliseconds of REAL time (700 000 executor turns): exec
+        // has to keep turning however long that takes
+        if g.r.chance(1, if thorough { 600 } else { 2000 }) {
+            let k = *g.r.pick(&[1u64, 4]);
+            let e = g.r.below(nev as u64) as usize;
+            for _ in 0..k {
+                let loc = g.kind(mode);
+                let t = g.task(loc, vec![rep("y".into(), 700_000 / k)]);
+                evs[e].push(format!("s{t}"));
             }
         }
         writeln!(out, "case {id}").unwrap();
